@@ -51,12 +51,34 @@ const (
 
 	// dnsDBConfig.validate reports max_size as "size".
 	vc20KnownDNSDBName = "dnsdb-max-size-reported-as-size"
+
+	// ratelimitTCPConfig.validate has no upper bound for max_pipeline_count;
+	// the TCP and TLS servers make a channel of that capacity for every
+	// connection.
+	vc20KnownPipelineUnbounded = "tcp-pipeline-count-unbounded"
 )
 
 // vc20T is what the evaluation needs from *testing.T and *rapid.T.
 type vc20T interface {
 	Fatalf(format string, args ...any)
 	Logf(format string, args ...any)
+}
+
+// vc20Shard tells the enumerations which cases are theirs when the driver runs
+// them in several processes.
+type vc20Shard struct {
+	shard, of, n int
+}
+
+func vc20NewShard() (sh *vc20Shard) {
+	return &vc20Shard{shard: vstat.EnvInt("VERIF_SHARD", 0), of: max(1, vstat.EnvInt("VERIF_NSHARDS", 1))}
+}
+
+// mine reports whether the next case belongs to this process.
+func (sh *vc20Shard) mine() (ok bool) {
+	sh.n++
+
+	return (sh.n-1)%sh.of == sh.shard%sh.of
 }
 
 // vc20Collector lets the exhaustive enumeration go on behind a failing case, so
@@ -201,6 +223,13 @@ func vc20Requirements() (reqs []vc20Requirement) {
 			tc := c.RateLimit.TCP
 
 			return tc.Enabled && tc.MaxPipelineCount == 0, fmt.Sprint(tc.MaxPipelineCount)
+		},
+	}, {
+		name: "ratelimit.tcp.max_pipeline_count can be the capacity of a channel when enabled", finding: vc20KnownPipelineUnbounded,
+		broken: func(c *configuration) (bool, string) {
+			tc := c.RateLimit.TCP
+
+			return tc.Enabled && uint64(tc.MaxPipelineCount) > math.MaxInt64, fmt.Sprint(tc.MaxPipelineCount)
 		},
 	}, {
 		name: "ratelimit.quic.max_streams_per_peer > 0 when enabled", finding: vc20KnownPositiveInts,
@@ -445,6 +474,37 @@ func vc20Requirements() (reqs []vc20Requirement) {
 	}
 
 	reqs = append(reqs, vc20Requirement{
+		name: "names of server groups, of the servers of a group, and ids of filtering groups are unique and not empty",
+		broken: func(c *configuration) (bool, string) {
+			grpNames := map[string]struct{}{}
+			for _, g := range c.ServerGroups {
+				if _, dup := grpNames[g.Name]; dup || g.Name == "" {
+					return true, "server group " + g.Name
+				}
+
+				grpNames[g.Name] = struct{}{}
+				srvNames := map[string]struct{}{}
+				for _, s := range g.Servers {
+					if _, dup := srvNames[s.Name]; dup || s.Name == "" {
+						return true, "server " + s.Name
+					}
+
+					srvNames[s.Name] = struct{}{}
+				}
+			}
+
+			ids := map[string]struct{}{}
+			for _, g := range c.FilteringGroups {
+				if _, dup := ids[g.ID]; dup || g.ID == "" {
+					return true, "filtering group " + g.ID
+				}
+
+				ids[g.ID] = struct{}{}
+			}
+
+			return false, ""
+		},
+	}, vc20Requirement{
 		name: "filters.ede_enabled is true when sde_enabled is",
 		broken: func(c *configuration) (bool, string) {
 			return c.Filters.SDEEnabled && !c.Filters.EDEEnabled, "sde without ede"
@@ -1002,8 +1062,9 @@ const vc20Rule = "mutations of config.dist.yaml over an automatically extracted 
 // TestVerifC20Singles enumerates every single-field mutation of the catalogue.
 func TestVerifC20Singles(t *testing.T) {
 	st := vstat.New("C20", "cmd.singles", "bounded-exhaustive: every catalogue field x every mutation value, one at a time; "+vc20Rule,
-		"accepted", "rejected-named", "rejected-parse", "exercise-full",
-		"val:zero", "val:neg", "val:missing", "val:huge", "val:max-family+1", "val:wrong-enum", "val:dangling-ref",
+		"accepted", "rejected-named", "rejected-parse", "exercise-full", "dot-real-answered",
+		"val:zero", "val:neg", "val:missing", "val:null", "val:huge", "val:max-family-1", "val:max-family+1",
+		"val:limit-1", "val:limit+1", "val:duplicate-element", "val:wrong-enum", "val:dangling-ref",
 		"kind:prefixlen", "kind:duration", "kind:size", "kind:count", "kind:enum", "kind:xref", "kind:node",
 		"served-v4", "served-v6")
 	st.SetExhaustive()
@@ -1011,8 +1072,13 @@ func TestVerifC20Singles(t *testing.T) {
 
 	ck := vc20NewChecker(t, st)
 	col := &vc20Collector{t: t}
+	sh := vc20NewShard()
 	for _, f := range ck.fx.fields {
 		for _, v := range vc20Values(f, ck.fx.enums, ck.fx.xrefs) {
+			if !sh.mine() {
+				continue
+			}
+
 			col.run(func() { ck.vc20Eval(col, []vc20Mutation{{field: f, val: v}}, false) })
 		}
 	}
@@ -1028,14 +1094,16 @@ func TestVerifC20Singles(t *testing.T) {
 // ("if enabled", "for consul the TTL must be ...", "if set to ecs, ecs_size
 // must be greater than zero").
 func TestVerifC20Switches(t *testing.T) {
-	st := vstat.New("C20", "cmd.switches", "bounded-exhaustive: per mapping, every (bool or enum sibling, other scalar sibling) pair x all values of both; "+vc20Rule,
-		"accepted", "rejected-named", "exercise-full", "kind:enum", "kind:bool", "val:zero", "val:flip", "val:other-enum")
+	st := vstat.New("C20", "cmd.switches", "bounded-exhaustive: per mapping, every (bool or enum child, other child: scalar, list or object) pair x all values of both; "+vc20Rule,
+		"accepted", "rejected-named", "exercise-full", "kind:enum", "kind:bool", "kind:node", "val:zero", "val:flip", "val:other-enum",
+		"val:set-true", "val:null")
 	st.SetExhaustive()
 	st.Finish(t)
 
 	ck := vc20NewChecker(t, st)
 	col := &vc20Collector{t: t}
 	fx := ck.fx
+	sh := vc20NewShard()
 	isSwitch := func(f *vc20Field) (ok bool) { return f.kind == vc20KindBool || f.kind == vc20KindEnum }
 	for _, grp := range fx.groups {
 		for i, ai := range grp {
@@ -1047,6 +1115,10 @@ func TestVerifC20Switches(t *testing.T) {
 
 				for _, va := range vc20Values(a, fx.enums, nil) {
 					for _, vb := range vc20Values(b, fx.enums, nil) {
+						if !sh.mine() {
+							continue
+						}
+
 						col.run(func() {
 							ck.vc20Eval(col, []vc20Mutation{{field: a, val: va}, {field: b, val: vb}}, false)
 						})
@@ -1097,9 +1169,9 @@ func TestVerifC20Thresholds(t *testing.T) {
 // TestVerifC20Mutate draws subsets of one to four fields and threshold pairs.
 func TestVerifC20Mutate(t *testing.T) {
 	st := vstat.New("C20", "cmd.mutate", "rapid: 1-4 fields (biased to one) or a pair of sibling thresholds in all orders; "+vc20Rule,
-		"accepted", "rejected-named", "rejected-parse", "exercise-full", "threshold-pair",
+		"accepted", "rejected-named", "rejected-parse", "exercise-full", "threshold-pair", "dot-real-answered",
 		"mutations:1", "mutations:2", "mutations:3",
-		"val:zero", "val:neg", "val:missing", "val:huge",
+		"val:zero", "val:neg", "val:missing", "val:null", "val:huge",
 		"kind:prefixlen", "kind:duration", "kind:size", "kind:count", "kind:enum", "kind:xref",
 		"served-v4", "served-v6")
 	st.Finish(t)
